@@ -124,6 +124,7 @@ Definition norm_out (stars : list (N * N)) (r : rendered) : rendered :=
   end.
 
 Record ecase := {
+  e_kwfix : bool;                      (* which variant of the call parser rope runs: does a **mapping call parse (probed) *)
   e_init : bool;                       (* the changed function is an __init__ *)
   e_rdel : bool;                       (* which variant of ArgumentRemover rope runs (probed) *)
   e_fixed : bool;                      (* which variant of the header parser rope runs (probed) *)
@@ -135,9 +136,9 @@ Record ecase := {
 }.
 
 (* e_init: the changed function is an __init__ (the constructor finder is added) *)
-Definition model_site (rdel is_init : bool) (d : definfo) (cs : list changer) (s : site) : option rendered :=
+Definition model_site (kwfix rdel is_init : bool) (d : definfo) (cs : list changer) (s : site) : option rendered :=
   option_map (norm_out (s_stars s))
-    (change_site rdel is_init d cs (mkPsite (s_callee s) (s_implicit s) (s_ctor s) (norm_in (s_stars s) (s_call s)))).
+    (change_site kwfix rdel is_init d cs (mkPsite (s_callee s) (s_implicit s) (s_ctor s) (norm_in (s_stars s) (s_call s)))).
 
 Fixpoint all_some {A} (l : list (option A)) : option (list A) :=
   match l with
@@ -146,9 +147,9 @@ Fixpoint all_some {A} (l : list (option A)) : option (list A) :=
   | None :: _ => None
   end.
 
-Definition site_preserved (rdel is_init : bool) (d : definfo) (cs : list changer) (s : site) : N :=
+Definition site_preserved (kwfix rdel is_init : bool) (d : definfo) (cs : list changer) (s : site) : N :=
   if negb (finder_finds is_init (s_callee s)) then 0%N else
-  match call_read d (s_implicit s) (s_ctor s) (norm_in (s_stars s) (s_call s)) with
+  match call_read kwfix d (s_implicit s) (s_ctor s) (norm_in (s_stars s) (s_call s)) with
   | Some c => preserved rdel d cs c
   | None => 0%N
   end.
@@ -162,7 +163,7 @@ Definition read_ok (fixed : bool) (a : astargs) : bool :=
   match a_kwonly a with [] => opt_eqb def_eqb (def_read fixed a) (Some (def_of_ast a)) | _ => false end.
 
 Definition e_site_code (k : ecase) (s : site) : N :=
-  if read_ok (e_fixed k) (e_ast k) then site_preserved (e_rdel k) (e_init k) (e_def k) (e_cs k) s else 0%N.
+  if read_ok (e_fixed k) (e_ast k) then site_preserved (e_kwfix k) (e_rdel k) (e_init k) (e_def k) (e_cs k) s else 0%N.
 
 (* the observable is the emitted text: a parameter whose *name* is the string "*r" (the misread vararg)
    and the vararg r both print as `*r`; both sides are brought to the same token before comparing *)
@@ -180,7 +181,7 @@ Definition canon_tok (a : astargs) (t : ptoken) : ptoken :=
 
 Definition run_ecase (k : ecase) : N :=
   let md := match def_read (e_fixed k) (e_ast k) with Some d => apply_defs (e_cs k) d | None => None end in
-  let mc := all_some (map (model_site (e_rdel k) (e_init k) (e_def k) (e_cs k)) (e_sites k)) in
+  let mc := all_some (map (model_site (e_kwfix k) (e_rdel k) (e_init k) (e_def k) (e_cs k)) (e_sites k)) in
   match md, mc with
   | Some d', Some calls =>
       match e_newdef k with
@@ -219,6 +220,7 @@ Definition udomain (cs : list ucase) : list N :=
 
 (* ---- IntroduceParameter(project, resource, offset).get_changes(name) ---------------------------- *)
 Record icase := {
+  i_kwfix : bool;
   i_fixed : bool;
   i_ast : astargs;
   i_p : N;                               (* the new parameter *)
@@ -233,7 +235,7 @@ Definition i_def (k : icase) : definfo :=
 (* 0 outside the domain of C06_introduce_parameter, 1 inside and the conclusion holds, 2 inside and fails *)
 Definition i_site_code (k : icase) (s : site) : N :=
   if read_ok (i_fixed k) (i_ast k) then
-    match call_read (i_def k) (s_implicit s) (s_ctor s) (norm_in (s_stars s) (s_call s)) with
+    match call_read (i_kwfix k) (i_def k) (s_implicit s) (s_ctor s) (norm_in (s_stars s) (s_call s)) with
     | Some c =>
         match bind (i_def k) c with
         | Some b =>
